@@ -319,7 +319,8 @@ def _vmdk(case, world, d, bad, keys, probes):
         img = WV.render(c, lay, View([lay]), name="disk.vmdk")
         f = img.files["disk.vmdk"]
         raw = text.encode()
-        f.write(512, raw + bytes(c["desc_sectors"] * 512 - len(raw)))
+        desc_off = struct.unpack("<Q", f.pread(28, 8))[0]  # wherever the writer put the embedded descriptor
+        f.write(desc_off * 512, raw + bytes(c["desc_sectors"] * 512 - len(raw)))
         world.fs.add(d + "/disk.vmdk", f)
         vm = VMDK(Path(d + "/disk.vmdk")) if case["open"] == "path" else VMDK(world.handle(d + "/disk.vmdk"))
         desc = vm.disks[0].descriptor
